@@ -1026,7 +1026,7 @@ bool OPNMIDIplay::doRolandSysEx(unsigned dev, const uint8_t *data, size_t size)
     {
     case (RolandModel_GS << 24) | 0x00007F: // System Mode Set
     {
-        if(size != 1 || (dev & 0xF0) != 0x10)
+        if(size != 1 || !(dev == 0x7F || (dev & 0xF0) == 0x10)) // broadcast, or device 10..1F
             break;
         unsigned gs_mode = data[0] & 0x7F;
         ADL_UNUSED(gs_mode);//TODO: Hook this correctly!
@@ -1038,7 +1038,7 @@ bool OPNMIDIplay::doRolandSysEx(unsigned dev, const uint8_t *data, size_t size)
     }
     case (RolandModel_GS << 24) | 0x40007F: // Mode Set
     {
-        if(size != 1 || (dev & 0xF0) != 0x10)
+        if(size != 1 || !(dev == 0x7F || (dev & 0xF0) == 0x10)) // broadcast, or device 10..1F
             break;
         unsigned value = data[0] & 0x7F;
         ADL_UNUSED(value);//TODO: Hook this correctly!
@@ -1050,7 +1050,7 @@ bool OPNMIDIplay::doRolandSysEx(unsigned dev, const uint8_t *data, size_t size)
     }
     case (RolandModel_GS << 24) | 0x401015: // Percussion channel
     {
-        if(size != 1 || (dev & 0xF0) != 0x10)
+        if(size != 1 || !(dev == 0x7F || (dev & 0xF0) == 0x10)) // broadcast, or device 10..1F
             break;
         if(m_midiChannels.size() < 16)
             break;
